@@ -41,6 +41,11 @@ def core(ctx):
     big_t = [(0x9E3779B97F4A7C15 * (i + 1)) & ((1 << 64) - 1) for i in range(140)]
     yield {"k": "mux", "w": 257, "tables": big_t}
     yield {"k": "adder", "w": 70, "cin": True, "cout": True, "tables": big_t}
+    # widths beyond small-integer caches and byte boundaries, each flag combination once
+    yield {"k": "adder", "w": 257, "cin": False, "cout": True, "tables": big_t}
+    yield {"k": "adder", "w": 258, "cin": False, "cout": True, "tables": big_t}
+    yield {"k": "adder", "w": 259, "cin": True, "cout": True, "tables": big_t}
+    yield {"k": "adder", "w": 300, "cin": True, "cout": False, "tables": big_t}
     for w in (63, 64, 65, 66, 100, 128, 129, 200):
         for lend in (False, True):
             vals = [0, 1, (1 << w) - 1, 1 << (w - 1), (1 << 64) % (1 << w), ((1 << 64) + 5) % (1 << w), (0xDEADBEEFCAFEBABE1234567 * 3) % (1 << w)]
